@@ -356,6 +356,18 @@ def rule_s8(repo):
                                     w.lineno, src(k.value.args[0], 30), goal), '%s:%d' % (METHOD, w.lineno))
     return res
 
+def rule_s9(repo):
+    """A forward suggestion adds a fact in front of the goal and then asks whether some earlier line already proves the
+    goal; if so the goal is removed and what cited it cites that line (C13.A9).  For this property: the suggestion said
+    "adds the fact F" - redirected to anything but the line find_goal returned, the goal is "closed" by a line that does
+    not prove it and the step has not done what was advertised."""
+    from .c13 import rule_a9
+    r = rule_a9(repo)
+    res = RuleResult('C14.S9', 'a goal found already proved is closed by the line that proves it', floor=4)
+    for i in r.instances:
+        res.add(i.key, i.ok, i.detail, i.loc)
+    return res
+
 
 def rules(repo):
-    return [rule_s1(repo), rule_s2(repo), rule_s3(repo), rule_s4(repo), rule_s5(repo), rule_s6(repo), rule_s7(repo), rule_s8(repo)]
+    return [rule_s1(repo), rule_s2(repo), rule_s3(repo), rule_s4(repo), rule_s5(repo), rule_s6(repo), rule_s7(repo), rule_s8(repo), rule_s9(repo)]
